@@ -19,11 +19,17 @@ def run(tier):
     ref = vlib.build("O1", repo=os.path.join(vlib.ROOT, "ref"), tag="ref-O1")
     wd = vlib.workdir("c08")
     stride, offset = (3, vlib.SEED) if tier == "quick" else (1, 0)
+    # value sweep (see C01): generator field values that steer a block's layout, found with the current build
+    discr = os.path.join(wd, "discr.ndjson")
+    rc, out, err = vlib.run_harness(cur, ["c01-probe", discr, "12", "6" if tier == "quick" else "0"], timeout=3000)
+    if rc != 0:
+        raise vlib.InfraError("c01-probe failed: " + err[-500:])
+    ck.cov["value_sweep_settings"] = json.loads(out.strip().splitlines()[-1])["settings"]
     lists = {}
     for who, exe in (("ref", ref), ("cur", cur)):
         d = os.path.join(wd, who)
         shutil.rmtree(d, ignore_errors=True)
-        rc, out, err = vlib.run_harness(exe, ["c08-gen", d, str(stride), str(offset)], timeout=6000)
+        rc, out, err = vlib.run_harness(exe, ["c08-gen", d, str(stride), str(offset), discr], timeout=6000)
         if rc != 0:
             raise vlib.InfraError("c08-gen(%s) failed: %s" % (who, err[-1000:]))
         lists[who] = sorted(os.path.join(d, f) for f in os.listdir(d) if f.endswith(".nif"))
@@ -38,6 +44,16 @@ def run(tier):
         if rc != 0:
             raise vlib.InfraError("c08-resave(%s) failed: %s" % (who, err[-1000:]))
         res[who] = {json.loads(l)["file"]: json.loads(l) for l in open(outp)}
+    # configurations on which the reference build is not consistent with itself: it wrote the file (normal form) and
+    # re-encodes it differently. Decided from the reference build alone; both twins (written by ref / by cur) are discards.
+    ref_broken = set()
+    for path, writer in allfiles:
+        a = res["ref"].get(path)
+        if writer == "ref" and a is not None and "crash" not in a and a.get("rc") == 0 and "out" in a:
+            if a["out"]["whole"] != a["in"]["whole"] or (a["in"].get("hs") and a["out"]["sizes"] != a["in"]["sizes"]):
+                ref_broken.add(os.path.basename(path))
+    ck.cov["reference_not_self_consistent"] = sorted(ref_broken)[:40]
+    ck.cov["reference_not_self_consistent_count"] = len(ref_broken)
     tr = os.path.join(wd, "twobuild.ndjson")
     n = 0
     with open(tr, "w") as f:
@@ -48,7 +64,8 @@ def run(tier):
             if "crash" in a or "crash" in b:
                 f.write(json.dumps({"e": "crash", "file": os.path.basename(path), "writer": writer, "ref": a.get("crash") or "", "cur": b.get("crash") or ""}) + "\n")
             else:
-                f.write(json.dumps({"e": "twobuild", "file": os.path.basename(path), "writer": writer, "ref": a, "cur": b}) + "\n")
+                f.write(json.dumps({"e": "twobuild", "file": os.path.basename(path), "writer": writer, "ref": a, "cur": b,
+                                    "refBroken": os.path.basename(path) in ref_broken}) + "\n")
             n += 1
     r, viols, nn = vlib.validate_trace("NifWireTrace", tr, tag="c08", timeout=6000, stack_mb=256, heap="12g")
     ck.add_tlc("NifWireTrace(twobuild)", r, "TwoBuildViol on every file")
